@@ -102,7 +102,9 @@ class Data2D(Block):
         """
         self.format = format
 
-        self._camMap = []
+        # cameras are numbered 0..nCams-1 unless a decoded file says otherwise
+        # (the map is part of the encoding and of nBytes: it must never be missing)
+        self._camMap = list(range(nCams))
         self._data = None
 
     def __iter__(self):
